@@ -636,7 +636,7 @@ const PATHS: &[PathDef] = &[
     PathDef { ctor: "P_in_index_order_by", sql: "SELECT id FROM m ORDER BY k IN (SELECT k FROM s), id", required: &[(M, SEL), (S, SEL)], checked_extra: &[], class: "in-subquery-index-path" },
     PathDef { ctor: "P_in_index_group_by", sql: "SELECT COUNT(*) FROM m GROUP BY k IN (SELECT k FROM s)", required: &[(M, SEL), (S, SEL)], checked_extra: &[], class: "in-subquery-index-path" },
     PathDef { ctor: "P_in_index_partition_by", sql: "SELECT id, SUM(v) OVER (PARTITION BY k IN (SELECT k FROM s)) FROM m", required: &[(M, SEL), (S, SEL)], checked_extra: &[], class: "in-subquery-index-path" },
-    PathDef { ctor: "P_window_partition_subquery", sql: "SELECT id, SUM(v) OVER (PARTITION BY (SELECT MAX(v) FROM s)) FROM m", required: &[(M, SEL), (S, SEL)], checked_extra: &[], class: "window-partition-error-swallowed" },
+    PathDef { ctor: "P_window_partition_subquery", sql: "SELECT id, SUM(v) OVER (PARTITION BY (SELECT COUNT(*) FROM s WHERE s.k = m.k)) FROM m", required: &[(M, SEL), (S, SEL)], checked_extra: &[], class: "window-partition-error-swallowed" },
     PathDef { ctor: "P_insert_values", sql: "INSERT INTO t VALUES (50, 5, 5)", required: &[(T, INS)], checked_extra: &[], class: "" },
     PathDef { ctor: "P_insert_select", sql: "INSERT INTO t SELECT id + 1000, k, v FROM s", required: &[(T, INS), (S, SEL)], checked_extra: &[], class: "" },
     PathDef { ctor: "P_insert_select_columns", sql: "INSERT INTO t (id, k, v) SELECT id, k, v FROM s", required: &[(T, INS), (S, SEL)], checked_extra: &[], class: "" },
@@ -1167,7 +1167,10 @@ fn main() {
                     if code == 0 {
                         // executed although a required privilege is missing
                         let leaked = lacks_select && (matches!(&out, Outcome::Rows(r) if !r.is_empty()) || !changed.is_empty());
-                        let class = if pd.class == "window-partition-error-swallowed" && changed.is_empty() && lacking == vec![(S, SEL)] {
+                        // one partition for all rows = the subquery's value did not reach the result (with SELECT on S
+                        // the fixture gives two partitions)
+                        let single_partition = matches!(&out, Outcome::Rows(r) if r.iter().all(|x| x.len() == 2 && canon_value(&x[1]) == canon_value(&r[0][1])));
+                        let class = if pd.class == "window-partition-error-swallowed" && changed.is_empty() && lacking == vec![(S, SEL)] && single_partition {
                             // the statement ran, but without the refused subquery: every row lands in the NULL partition
                             "window-partition-error-swallowed"
                         } else if !pd.class.is_empty() && pd.class != "window-partition-error-swallowed" && pd.class != "truncate-multi-cascade-partial" {
